@@ -3,6 +3,7 @@ package props
 import (
 	"encoding/json"
 	"fmt"
+	"strings"
 	"time"
 
 	"github.com/lidofinance/dc4bc/fsm/types/requests"
@@ -94,6 +95,15 @@ func runC10(c *Ctx, n, t int, seed uint64) {
 	if err1 != nil || err2 != nil {
 		c.Inconclusive("start: %v %v", err1, err2)
 		return
+	}
+	// anyone may post a reinitialisation message (it is not authenticated): an empty one for an unused
+	// round id and a malformed one travel on the board too; neither may weaken what follows
+	for _, d := range []string{`{"dkg_id":"` + strings.Repeat("e", 64) + `","threshold":2,"participants":[],"messages":[]}`, `{"dkg_id":"","threshold":0}`} {
+		rid := strings.Repeat("e", 64)
+		if strings.Contains(d, `"dkg_id":""`) {
+			rid = ""
+		}
+		_ = w.Board.Send(storage.Message{DkgRoundID: rid, Event: EvReinit, Data: []byte(d), SenderAddr: "anyone", Signature: []byte("x")})
 	}
 	if _, q := w.Run(world.OneAtATimePolicy, 10000); !q {
 		c.Inconclusive("two-round reference run not quiescent")
